@@ -32,6 +32,7 @@ import (
 func init() { tr.Register("dispreal", RunReal) }
 
 const (
+	noiseBurst   = 3000
 	realDeadline = 1500 * time.Millisecond
 	stopDeadline = 2500 * time.Millisecond
 )
@@ -39,12 +40,14 @@ const (
 var (
 	respFinal    = &wire.MsgTx{Version: 222}
 	respProgress = &wire.MsgTx{Version: 111}
+	respNoise    = &wire.MsgTx{Version: 333} // unsolicited: no handler takes it
 )
 
 type rpeer struct {
 	addr  string
 	mu    sync.Mutex
-	mode  string // silent | final | progress | disc
+	mode  string // silent | final | progress | disc | final+noise
+	noise atomic.Bool
 	delay time.Duration
 	sub   chan wire.Message
 	quit  chan struct{}
@@ -82,6 +85,15 @@ func (p *rpeer) QueueMessageWithEncoding(wire.Message, chan<- struct{}, wire.Mes
 		switch mode {
 		case "final":
 			p.send(respFinal)
+		case "final+noise":
+			// the answer, then (once) a burst of unsolicited messages: the
+			// worker that has just delivered its result is kept busy in the
+			// message arm of its idle select instead of sitting at its job
+			// channel
+			if p.send(respFinal) && p.noise.CompareAndSwap(false, true) {
+				for i := 0; i < noiseBurst && p.send(respNoise); i++ {
+				}
+			}
 		case "progress":
 			if p.send(respProgress) {
 				p.send(respFinal)
@@ -423,6 +435,147 @@ func realCase(rng *rand.Rand) *realRun {
 	return r
 }
 
+// rankCase: "preferring peers with a better record" with the REAL worker.  A
+// real worker that has just delivered a result is free by the dispatcher's
+// bookkeeping before it is back at its job channel (here it is moreover kept
+// busy discarding unsolicited messages).  Peer A has answered every request so
+// far, peer B none and sits idle at its channel; batch Y is handed in the
+// moment batch X's verdict (A's result) arrives.  A was free when Y was
+// scheduled (its slot is cleared before the verdict is written), so Y's
+// request is due to A: the dispatcher must wait for A rather than hand the
+// request to B.  Which peer was asked is read off the peers' own request
+// counters.
+func rankCase(rng *rand.Rand) *realRun {
+	r := &realRun{}
+	stopAll := make(chan struct{})
+	defer close(stopAll)
+	peerCh := make(chan query.Peer)
+	wm := query.NewWorkManager(&query.Config{
+		ConnectedPeers: func() (<-chan query.Peer, func(), error) { return peerCh, func() {}, nil },
+		NewWorker:      query.NewWorker,
+		Ranking:        query.NewPeerRanking(),
+	})
+	wm.Start()
+	connect := func(addr string) *rpeer {
+		p := &rpeer{addr: addr, mode: "final", sub: make(chan wire.Message), quit: make(chan struct{}), stop: stopAll}
+		select {
+		case peerCh <- p:
+			return p
+		case <-time.After(realDeadline):
+			return nil
+		}
+	}
+	submit := func(n int) *rbatch {
+		b, reqs := mkBatch(n)
+		done := make(chan struct{})
+		b.t0 = time.Now()
+		go func() { b.errChan = wm.Query(reqs); close(done) }()
+		select {
+		case <-done:
+			return b
+		case <-time.After(realDeadline):
+			return nil
+		}
+	}
+	r.hit("real.kind-rankwait")
+	a := connect("p1")
+	if a == nil {
+		r.emit("rpeer", "HANG")
+		return r
+	}
+	okA := 0
+	step := func(i int, n int, what string, pa, pb *rpeer) (*rbatch, bool) {
+		var a0, b0 int64
+		a0 = pa.sent.Load()
+		if pb != nil {
+			b0 = pb.sent.Load()
+		}
+		op := fmt.Sprintf("rbatch %d kind=rank-%s n=%d", i, what, n)
+		b := submit(n)
+		if b == nil {
+			r.emit(op, "v=HANG fin=0/0")
+			return nil, false
+		}
+		v := b.await(realDeadline)
+		r.emit(op, fmt.Sprintf("v=%s fin=%d/%d", v, b.fin(), n))
+		if v != errOK {
+			return b, false
+		}
+		if pb != nil {
+			da, db := pa.sent.Load()-a0, pb.sent.Load()-b0
+			to := "none"
+			switch {
+			case da > 0 && db > 0:
+				to = "both"
+			case da > 0:
+				to = "A"
+			case db > 0:
+				to = "B"
+			}
+			r.emit(fmt.Sprintf("rrank %s okA=%d okB=0", what, okA), "to="+to)
+			r.hit("real.rank-" + what + "-to-" + to)
+		}
+		okA += n
+		return b, true
+	}
+	var batches []*rbatch
+	fin := func() {
+		stopped := make(chan struct{})
+		go func() { wm.Stop(); close(stopped) }()
+		select {
+		case <-stopped:
+			r.emit("rstop", "ok")
+		case <-time.After(stopDeadline):
+			r.emit("rstop", "HANG")
+			return
+		}
+		var ns []string
+		for i, b := range batches {
+			for {
+				select {
+				case err := <-b.errChan:
+					b.got = append(b.got, verdictName(err))
+					continue
+				default:
+				}
+				break
+			}
+			ns = append(ns, fmt.Sprintf("%d:%d", i+1, len(b.got)))
+		}
+		r.emit("rfinal", "n=["+strings.Join(ns, " ")+"]")
+	}
+	// A earns its record alone
+	b0, ok := step(1, 1+rng.Intn(4), "solo", a, nil)
+	if b0 != nil {
+		batches = append(batches, b0)
+	}
+	if !ok {
+		fin()
+		return r
+	}
+	b := connect("p2")
+	if b == nil {
+		r.emit("rpeer", "HANG")
+		return r
+	}
+	// X: both idle at their channels, the better record gets it; A's answer is
+	// followed by the burst
+	a.set("final+noise", 0)
+	bx, ok := step(2, 1, "idle", a, b)
+	if bx != nil {
+		batches = append(batches, bx)
+	}
+	if ok {
+		// Y: A free by the bookkeeping, not yet receiving; B receiving
+		by, _ := step(3, 1, "after-result", a, b)
+		if by != nil {
+			batches = append(batches, by)
+		}
+	}
+	fin()
+	return r
+}
+
 // RunReal runs the cases a few at a time (they mostly sleep on timers).
 // realHangs counts HANG observations over all cases; no new case is started
 // once a handful have been seen (each costs a deadline).
@@ -437,6 +590,9 @@ func RunReal(t *tr.W, thorough bool) {
 	if os.Getenv("VERIF_SEARCH") != "" {
 		n = 3 * 150
 	}
+	// the last fifth of the cases are rank scenarios (cheap: no timer is involved)
+	nRank := n / 5
+	n += nRank
 	const par = 6
 	res := make([]*realRun, n)
 	var wg sync.WaitGroup
@@ -452,7 +608,11 @@ func RunReal(t *tr.W, thorough bool) {
 			if realHangs.Load() >= 4 {
 				return
 			}
-			res[i] = realCase(rng)
+			if i >= n-nRank {
+				res[i] = rankCase(rng)
+			} else {
+				res[i] = realCase(rng)
+			}
 			for _, l := range res[i].lines {
 				if strings.Contains(l.obs, "HANG") {
 					realHangs.Add(1)
